@@ -43,7 +43,7 @@ type verifVNode struct {
 }
 
 var (
-	verifC40Flow     = []string{"div", "section", "article", "ul", "p", "blockquote", "x-box"}
+	verifC40Flow     = []string{"div", "section", "article", "ul", "p", "blockquote", "x-box", "pre", "listing"}
 	verifC40Phrasing = []string{"span", "a", "b", "em", "i", "strong", "code", "small", "u", "x-inline", "label"}
 	verifC40Format   = map[string]bool{"a": true, "b": true, "em": true, "i": true, "strong": true, "code": true, "small": true, "u": true}
 	verifC40Leaves   = []string{"br", "img", "wbr"}
@@ -84,6 +84,13 @@ func verifC40Kids(rng *rand.Rand, depth int, flow bool, listOnly bool, banned ma
 				e.Kids = verifC40Kids(rng, depth+1, false, true, banned, budget)
 			case "p":
 				e.Kids = verifC40Kids(rng, depth+1, false, false, banned, budget)
+			case "pre", "listing":
+				// (added after seeded change C40l) the parser drops one newline right after these start tags and Render
+				// writes one more to protect a text that begins with one: half of them begin with such a text
+				e.Kids = verifC40Kids(rng, depth+1, false, false, banned, budget)
+				if rng.IntN(2) == 0 {
+					e.Kids = append([]*verifVNode{{IsTxt: true, Text: "\n" + verifC40String(rng, 3)}}, e.Kids...)
+				}
 			default:
 				e.Kids = verifC40Kids(rng, depth+1, true, false, banned, budget)
 			}
@@ -132,13 +139,18 @@ func verifC40Attrs(rng *rand.Rand) []Attribute {
 	return out
 }
 
-func verifC40Build(v *verifVNode) *Node {
+// noAtom builds the tree the way a program that assembles nodes by hand may: Data only, DataAtom zero (Render is
+// documented in terms of Data).
+func verifC40Build(v *verifVNode, noAtom bool) *Node {
 	if v.IsTxt {
 		return &Node{Type: TextNode, Data: v.Text}
 	}
 	n := &Node{Type: ElementNode, Data: v.Tag, DataAtom: atom.Lookup([]byte(v.Tag)), Attr: append([]Attribute(nil), v.Attrs...)}
+	if noAtom {
+		n.DataAtom = 0
+	}
 	for _, k := range v.Kids {
-		n.AppendChild(verifC40Build(k))
+		n.AppendChild(verifC40Build(k, noAtom))
 	}
 	return n
 }
@@ -438,7 +450,11 @@ func TestVerif_C40(t *testing.T) {
 		doc.AppendChild(htmlN)
 		htmlN.AppendChild(head)
 		htmlN.AppendChild(body)
-		body.AppendChild(verifC40Build(wrapper))
+		noAtom := c.Rng.IntN(4) == 0
+		if noAtom {
+			r.Event("trees_built_without_DataAtom", 1)
+		}
+		body.AppendChild(verifC40Build(wrapper, noAtom))
 		var buf bytes.Buffer
 		if err := Render(&buf, doc); err != nil {
 			c.Violation("render-error-on-ordinary-tree", "Render: %v", err)
